@@ -277,7 +277,11 @@ func randomOrderValue(r *gen.Rng, depth int) any {
 	case 12:
 		return int64(1<<53) + int64(r.Range(-3, 3))
 	default:
-		return r.Str()
+		// a string starting with '$' used as an OPERAND denotes a field, so it cannot be compared as a value through Satisfy
+		if v, ok := r.Str().(string); ok && !strings.HasPrefix(v, "$") {
+			return v
+		}
+		return "s"
 	}
 }
 
